@@ -29,6 +29,7 @@ def run(ctx):
         eigsbase.counter_identity(ctx, base)
         eigsbase.restart_bound(ctx, base)
         eigsbase.initial_state(ctx, base)
+        eigsbase.init_restores_initial_state(ctx, base)
         eigsbase.rule_argument_flow(ctx, base)
         eigsbase.ritz_data_of_current_call(ctx, base)
     eigsbase.counter_pairing(ctx)
